@@ -1,9 +1,48 @@
 import Driver.Proto
+import Driver.PlyIO
+import PolyVerif.Model.Ply
 
 namespace Driver.C04
+open PolyVerif.Ply Driver.PlyIO
 
-/-- one request -> one answer line; `none` = unknown op / malformed -/
-def handle (_op : String) (_args : List String) : Option String := none
+/-- scalar equality inside oracles: identical bit patterns -/
+local instance (priority := high) bitsBEq : BEq Float := ⟨fun a b => a.toBits == b.toBits⟩
+
+/-- bitwise equality of two float meshes (after canonical ordering) -/
+def meshEq (a b : MeshVal Float) : Bool := meshStr a == meshStr b
+
+/-- strips the leading "ok" of a canonical mesh answer embedded in a request -/
+def pOkMesh : P (MeshVal Float) := do
+  match ← tok with
+  | "ok" => do
+    -- canonical form has no texuri token: re-insert
+    let topo ← tok
+    let rest ← get
+    set (topo :: "none" :: rest)
+    pMesh
+  | _ => failure
+
+def handle (op : String) (args : List String) : Option String :=
+  match op with
+  | "c04.write" => do
+      let (cfg, m) ← run (do let c ← pCfg; let m ← pMesh; pure (c, m)) args
+      pure (resStr hexOf (writeMesh codingF cfg m))
+  | "c04.read" => do
+      let bs ← run pBytes args
+      pure (resStr meshStr (readMesh codingF defaultReader bs))
+  | "c04.header" => do
+      let bs ← run pBytes args
+      pure (resStr (fun (p : Header × Bytes) => headerStr p.1 ++ s!" rest {p.2.length}") (parseHeader bs))
+  | "c04.holds.roundtrip" => do
+      let (cfg, m, back) ← run (do let c ← pCfg; let m ← pMesh; let b ← pOkMesh; pure (c, m, b)) args
+      pure (boolStr (RoundTrips codingF cfg m back))
+  | "c04.holds.header_describes" => do
+      let (bs, nv, nf, tri) ← run (do let b ← pBytes; let nv ← pNat; let nf ← pNat; let t ← pNat; pure (b, nv, nf, t)) args
+      pure (boolStr (HeaderDescribes bs nv nf (tri = 1)))
+  | "c04.holds.encodings_agree" | "c04.holds.uchar_scalar_ascii_agrees" => do
+      let (a, b, c) ← run (do let a ← pOkMesh; let b ← pOkMesh; let c ← pOkMesh; pure (a, b, c)) args
+      pure (boolStr (meshEq a b && meshEq b c))
+  | _ => none
 
 end Driver.C04
 
